@@ -14,9 +14,9 @@ from fractions import Fraction as F
 from . import core
 from .core import cq_bool, cq_list, cq_pos
 
-THEOREMS = ["C14_subst_sound", "C14_pass_value_replacement", "C14_pass_constant_assignments",
-            "C14_pass_eliminable_forward", "C14_pass_eliminable_partial", "C14_alias_add_sound",
-            "C14_pass_detect_aliases_partial", "C14_example"]
+THEOREMS = ["C14_subst_sound", "C14_pass_replace_parameter_values", "C14_pass_constant_assignments",
+            "C14_pass_eliminable_forward_partial", "C14_substitution_step_partial", "C14_alias_shapes_partial",
+            "C14_slow_path_refuted", "C14_example"]
 
 MODELLED_BOOL = ["replace_parameter_expressions", "replace_constant_expressions",
                  "eliminate_constant_assignments", "replace_parameter_values", "replace_constant_values",
